@@ -46,6 +46,8 @@ def gen_case(rng, tag, forced=None):
         roles = ["remove_later"] * nc
         for i in range(nc):
             evs.append((rng.choice([1, 2, 5, 50]), i, 0.85))
+    if scen == "static_merge":
+        nc = max(nc, 2); roles = ["normal"] * nc
     cts = std_types(V, roles, [3] * nc)
     for k, ct in enumerate(cts):
         ct["gid"] = 0 if roles[k] != "normal" else rng.choice([0, 0, 2, 3])
@@ -53,6 +55,16 @@ def gen_case(rng, tag, forced=None):
     for i in range(nc):
         M = tissue.rnd_rot(rng)
         cells.append((i, tissue.transform(n0, M, (i * 3.0 * R, 0.0, 0.0), (R, R, R)), f))
+    if scen == "static_merge":
+        # a static (or ECM) cell one of whose edges is far below the minimum edge length: the refiner merges it in the first pass, the
+        # cell then holds a free node slot and free face slots when the next file pair is written
+        k_ = rng.randrange(nc); cts[k_]["gid"] = rng.choice([4, 4, 1])
+        i_, n_, f_ = cells[k_]; a_, b_ = f_[0][0], f_[0][1]
+        # (both end points are drawn towards the midpoint: the node that replaces them stays within l_max of all its neighbours, so no
+        #  split refills the freed slots)
+        n_ = [list(q) for q in n_]; mid_ = [(n_[a_][k] + n_[b_][k]) / 2 for k in range(3)]
+        n_[a_] = [mid_[k] + 0.05 * (n_[a_][k] - mid_[k]) for k in range(3)]; n_[b_] = [mid_[k] + 0.05 * (n_[b_][k] - mid_[k]) for k in range(3)]
+        cells[k_] = (i_, n_, f_)
     p = tissue.params(dt=dt, damping=5e-10, T=T, S=S, lmin=7.5e-7 * 2, cut_adh=5e-7, cut_rep=5e-7, swap=0)
     string_stats = rng.random() < 0.4
     line = tissue.fmt_tissue(p, cts, cells) + " RUN 1 %d %s %d %d %s" % (rng.randrange(10 ** 6), tag, 1 if string_stats else 0, len(evs), " ".join("%d %d %s" % (a, b, hx(c)) for a, b, c in evs))
@@ -173,6 +185,10 @@ def oracle(c, its, end, cellfiles, facefiles, rows, colnames):
         alive = its[j]["before"]
         if int(r[0]) != len(alive):
             return "file_describes_cells_alive_when_written (result_%d.vtk has %s cells, %d were alive at iteration %d)" % (n, r[0], len(alive), j)
+        if "W" in r:
+            wf = r[r.index("W") + 1:]; r = r[:r.index("W")]
+            if "0" in wf:
+                return "cell_file_describes_closed_surfaces (result_%d.vtk: cell number %d of the file is not a closed consistently oriented surface using every point it lists)" % (n, wf.index("0"))
         if "I" in r:
             fid = r[r.index("I") + 1:]
             try:
@@ -239,6 +255,8 @@ def run(ck):
         c = gen_case(random.Random(1000 + j), "c19_k%d" % j, forced="S=dt")
         cases.append(c)
     cases += [gen_case(rng, "c19_%d" % i) for i in range(ncase)]
+    rng_st = random.Random(ck.seed * 1009 + 19)       # static / ECM cells that the refiner has to repair before the first files are written (own stream)
+    cases += [gen_case(rng_st, "c19_st%d" % i, forced="static_merge") for i in range(3 if ck.tier == "quick" else 30)]
     # a third of the runs start with persistent ids beyond 2^15 / 2^16 (as late in a long simulation with many divisions)
     for i, c in enumerate(cases):
         if i % 3 == 1:
